@@ -276,6 +276,16 @@ static void real_run(int run, vt::rng& g, int iters)
         vt::ev("NextGrid").i("run", run).i("it", it).i("chkId", grid_id(chk.pdf()))
             .i("refId", grid_id(hep::vegas_refine_pdf(chk.results().back().pdf(), chk.alpha(), chk.results().back().adjustment_data()))).emit();
     }
+    // a checkpoint whose last result is replaced by hand (rollback, then add): the next grid is the refinement of what is the last result now -
+    // also when the checkpoint has been asked for its grid before, with the same number of results
+    if (iters >= 2 && chk.results().size() == (std::size_t) iters)
+    {
+        auto const first = chk.results().front();
+        chk.rollback((std::size_t) iters - 1);
+        chk.add(first, chk.generator());
+        vt::ev("NextGrid").i("run", run).i("it", iters).i("chkId", grid_id(chk.pdf()))
+            .i("refId", grid_id(hep::vegas_refine_pdf(first.pdf(), chk.alpha(), first.adjustment_data()))).emit();
+    }
 }
 
 // an iteration whose values cancel exactly (estimate 0) but whose squares do not vanish: the grid is refined like after any other
